@@ -12,6 +12,15 @@ theorem pres_putNotSt {s s' : St} {a : Act} (hI : Inv s) (h : step .repaired s a
   | fire t0 =>
     simp only [step] at h
     (repeat' (split at h)) <;> (try cases h) <;> (simp only [St.setPc, St.setObj]; (have i_putNotSt := hI.putNotSt; have i_lockA := hI.lockA; have i_refs := hI.refs; have i_stObj := hI.stObj; grind [holdsStore, PC.ref, upd]))
+  | corrupt d =>
+    simp only [step] at h
+    (repeat' (split at h)) <;> (try cases h) <;> (simp only []; (have i_putNotSt := hI.putNotSt; have i_lockA := hI.lockA; have i_refs := hI.refs; have i_stObj := hI.stObj; grind [holdsStore, PC.ref, upd]))
+  | block d =>
+    simp only [step] at h
+    (repeat' (split at h)) <;> (try cases h) <;> (simp only []; (have i_putNotSt := hI.putNotSt; have i_lockA := hI.lockA; have i_refs := hI.refs; have i_stObj := hI.stObj; grind [holdsStore, PC.ref, upd]))
+  | repair d =>
+    simp only [step] at h
+    (repeat' (split at h)) <;> (try cases h) <;> (simp only []; (have i_putNotSt := hI.putNotSt; have i_lockA := hI.lockA; have i_refs := hI.refs; have i_stObj := hI.stObj; grind [holdsStore, PC.ref, upd]))
   | run t0 =>
     simp only [step] at h
     split at h
